@@ -4,6 +4,7 @@
 //   1. healthy meshes with heterogeneous peer timeouts / keep-alives: nobody ever forgets a reachable peer (checked between
 //      housekeeping and delivery, so a forget-and-redial within one second is seen);
 //   1b. a node that restarts with a different advertised timeout and reconnects from the same address is not forgotten afterwards;
+//   1c. a node whose housekeeping tick fails every time (an unreadable beacon file) keeps announcing itself and is not forgotten;
 //   2. a peer that goes silent is forgotten once the OWN peer timeout has passed, whatever timeout it advertised, and from then on
 //      neither its claims (router) nor the addresses learned from it (switch) select it as next hop.
 use super::*;
@@ -99,6 +100,41 @@ fn restarted_peer(a_timeout: u32, b_before: u32, b_after: u32, failing: &mut usi
     }
 }
 
+// a node on which a periodic housekeeping job keeps FAILING (here: a beacon file that cannot be read - housekeep returns the error, the
+// main loop logs it and carries on) is still a healthy peer: it must go on announcing itself, so nobody forgets it
+fn failing_periodic_job(failing: &mut usize) {
+    let mut sim = TapSimulator::new();
+    let mut ca = cfg(Type::Tap, 300, None);
+    ca.beacon_load = Some("/nonexistent/verif/beacon".to_string());
+    ca.beacon_interval = 1;
+    let a = sim.add_node(false, &ca);
+    let b = sim.add_node(false, &cfg(Type::Tap, 300, None));
+    sim.connect(a, b);
+    deliver!(sim, failing, "failing periodic job scenario");
+    if !sim.is_connected(a, b) || !sim.is_connected(b, a) { fail("C15", failing, "failing periodic job scenario: nodes do not connect".to_string()); return; }
+    let hook = std::panic::take_hook();
+    std::panic::set_hook(Box::new(|_| {}));
+    let mut t: Time = 0;
+    let mut bad = None;
+    while t < 1000 {
+        t += 1;
+        sim.set_time(t);
+        for addr in [a, b].iter() {
+            // (the simulator's trigger asserts that the tick succeeded; a failing tick is what this scenario is about)
+            let node = sim.nodes.get_mut(addr).unwrap();
+            let _ = std::panic::catch_unwind(std::panic::AssertUnwindSafe(|| node.trigger_housekeep()));
+            let node = sim.nodes.get_mut(addr).unwrap();
+            while let Some((dst, data)) = node.socket().pop_outbound() { sim.messages.push_back((*addr, dst, data)); }
+        }
+        if !sim.is_connected(a, b) || !sim.is_connected(b, a) { bad = Some((t, !sim.is_connected(b, a))); break; }
+        if !drain(&mut sim) { break; }
+    }
+    std::panic::set_hook(hook);
+    if let Some((t, b_forgot)) = bad {
+        fail("C15", failing, format!("node A has a periodic job that fails on every tick (unreadable beacon file); it is alive and the network delivers, yet at t={} {} has forgotten its healthy peer", t, if b_forgot { "B" } else { "A" }));
+    }
+}
+
 fn silent_peer(own_timeout: u32, silent_timeout: u32, tap: bool, failing: &mut usize) {
     // A (under test), B (goes silent), C (witness)
     let mut sim: Simulator<Frame>;
@@ -184,6 +220,7 @@ fn peers_time_out_when_silent_and_never_when_healthy() {
     for &(ta, b0, b1) in [(300u32, 300u32, 30u32), (300, 300, 59), (120, 60, 1000), (300, 1000, 45)].iter() {
         restarted_peer(ta, b0, b1, &mut failing);
     }
+    failing_periodic_job(&mut failing);
     for &(own, silent) in [(60u32, 600u32), (300, 60), (120, 120), (200, 1000)].iter() {
         silent_peer(own, silent, true, &mut failing);
         silent_peer(own, silent, false, &mut failing);
